@@ -218,8 +218,8 @@ def is_dynamic_default(text, base):
     t = text
     if model.REF_RE.search(t):
         return True
-    if re.fullmatch(r"-?\d+(\.\d+)?", t):
-        return False  # a (negative) number literal
+    if re.fullmatch(r"-?(\d+(\.\d*)?|\.\d+)", t):
+        return False  # a (negative) number literal, with or without digits before the point
     # ISO date / time / dateTime literals (with zone offsets) are literals whatever the question type
     t = re.sub(r"-?\d{4}-\d{2}-\d{2}(T\d{2}:\d{2}:\d{2}(\.\d+)?(Z|[+-]\d{2}:\d{2})?)?", "D", t)
     t = re.sub(r"\d{2}:\d{2}:\d{2}(\.\d+)?(Z|[+-]\d{2}:\d{2})?", "T", t)
